@@ -111,6 +111,7 @@ package fs
 //@   requires fs: fsys != nil
 //@   ensures absent: old(dirFid[fsys][name]) == 0 && flag & 0x40 == 0 ==> err != nil
 //@   ensures handle: err == nil ==> f != nil && fresh(f) && hOpen[f] && hPos[f] == 0 && fidOf[f] == dirFid[fsys][name] && fidOf[f] != 0 && fileOK(f) && fidName[fidOf[f]] == name
+//@   ensures nocreate: flag & 0x40 == 0 ==> dirFid[fsys] == old(dirFid[fsys])
 //@   ensures newhandle: err == nil ==> !old(hOpen[f])
 //@   ensures failed: err != nil ==> forall h ref :: hOpen[h] == old(hOpen[h]) && hPos[h] == old(hPos[h]) && fidOf[h] == old(fidOf[h])
 //@   ensures onlyfresh: forall h ref :: hOpen[h] && !old(hOpen[h]) ==> h == ref(f)
